@@ -340,7 +340,12 @@ class _ClassLoss(OpDef):
         return out
 
     def illegal_configs(self, tier):
-        return [{"n": 2, "c": 2, "labels": [0, 2], "via": "F"}, {"n": 2, "c": 2, "labels": [0, -3], "via": "F"}]
+        # labels out of range; labels that are not one class index per sample (PyTorch: "0D or 1D target tensor expected",
+        # "Expected input batch_size to match target batch_size")
+        return [{"n": 2, "c": 2, "labels": [0, 2], "via": "F"}, {"n": 2, "c": 2, "labels": [0, -3], "via": "F"},
+                {"n": 2, "c": 2, "labels": [[1], [0]], "via": "F"}, {"n": 2, "c": 3, "labels": [[1], [0]], "via": "M", "red": "mean"},
+                {"n": 2, "c": 2, "labels": [[1, 0]], "via": "F"}, {"n": 2, "c": 2, "labels": [1], "via": "M", "red": "sum"},
+                {"n": 2, "c": 2, "labels": [1, 0, 1], "via": "F"}, {"n": 1, "c": 2, "labels": [1, 0], "via": "M", "red": "none"}]
 
     def inputs(self, args):
         return [Inp("p", (args["n"], args["c"]))]
